@@ -165,6 +165,18 @@ func (h *vHS) exec(op []string) {
 		synctest.Wait()
 		out := h.collect(y)
 		h.l.line(line, vHsPacketSummary(h.hist[x][i])+" => "+out+" | "+h.dump(y))
+	case "t1q": // the timer fires and queues the retransmission; the write loop has not marshalled it yet
+		x := int(vAtoU32(t, op[2]))
+		id := timerT1Init
+		if op[3] == "cookie" {
+			id = timerT1Cookie
+		}
+		h.as[x].onRetransmissionTimeout(id, 1)
+		h.l.line(line, h.dump(x))
+	case "gather": // the write loop runs: everything queued is marshalled NOW, with the flags of NOW
+		x := int(vAtoU32(t, op[2]))
+		out := h.collect(x)
+		h.l.line(line, out+" | "+h.dump(x))
 	case "t1":
 		x := int(vAtoU32(t, op[2]))
 		id := timerT1Init
@@ -207,8 +219,18 @@ func vHSGenerate(h *vHS, r *vrand, nseq int) {
 					idx = r.n(n)
 				}
 				h.do("hs deliver %d %d", x, idx)
-			case k < 85:
+			case k < 80:
 				h.do("hs t1 %d init", x)
+			case k < 85:
+				// a retransmission is queued, other packets are processed first, then the write loop runs
+				h.do("hs t1q %d %s", x, []string{"init", "cookie"}[r.n(2)])
+				for j := 0; j < 1+r.n(3); j++ {
+					y := r.n(2)
+					if m := len(h.hist[y]); m > 0 {
+						h.do("hs deliver %d %d", y, m-1-r.n(min(m, 3)))
+					}
+				}
+				h.do("hs gather %d", x)
 			case k < 95:
 				h.do("hs t1 %d cookie", x)
 			default:
